@@ -33,7 +33,7 @@ pub fn long_run(prop: &str, run: &LongRun, seed: u64, stride: usize, out: &mut J
     let bars = !cfg.kind.has_scalar();
     let w = cfg.kind.window(&cfg).expect("windowed subject");
     let total = run.regimes.len() * run.seglen;
-    let volumes = [1.0, 3.0, 0.5, 2.0, 7.0];
+    let volumes = [1.0, 3.0, 0.0, 0.5, 2.0, 0.0, 7.0];
     let mut g = Gen::new(run.m, seed);
     let mut win: VecDeque<Op> = VecDeque::with_capacity(w + 1);
     let mut mmax = 0.0f64;
